@@ -14,6 +14,26 @@ class Unplaceable(Exception):
     """the specification cannot be placed by this method: rejection expected"""
 
 
+def placeable(d):
+    """None if the method can place everything the case declares, else the reason (rejection expected)"""
+    for c in d["cons"]:
+        if c.get("grid") == "integrator_roots" and d["method"] != "DC":
+            return "constraint on grid 'integrator_roots' under a shooting method (no collocation points)"
+    if d["intg"] == "set_next":
+        for o in d["obj"]:
+            if o.startswith("integral") or o.startswith("int_"):
+                if o != "int_control":
+                    return "ocp.integral with a discrete-time model"
+        for c in d["cons"]:
+            if c["c"] == "intq":
+                return "ocp.integral with a discrete-time model"
+    if "int_T" in d["obj"]:
+        return "horizon symbols inside an integrand (i.e. inside the quadrature ODE)"
+    if d["alg"] and d["method"] != "DC":
+        return "algebraic equations with an explicit scheme"
+    return None
+
+
 # ------------------------------------------------------------------------------------------
 # grids
 
@@ -199,11 +219,17 @@ class RefTraj:
             self.t0 = float(pv.get("T0", d["T0"]))
         kind, opts = P.grid_kind_opts(d)
         self.gkind, self.gopts = kind, opts
+        self.tc_declared = None
         if grid_is_labelled(d):
             self.tc = np.asarray(q["tc"], dtype=float).reshape(-1)
         else:
             n = normalized(kind, opts, N)
             self.tc = np.array([self.t0 + self.T * e for e in n])
+            if kind == "density":
+                # equidistribution is computed numerically on both sides (rockit: cvodes + bisection);
+                # rows are evaluated on the sampled grid, which is compared with the declared one at 1e-6
+                self.tc_declared = self.tc
+                self.tc = np.asarray(q["tc"], dtype=float).reshape(-1)
         self.ti = []
         for k in range(N):
             dt = (self.tc[k + 1] - self.tc[k]) / M
